@@ -506,4 +506,182 @@ __CPROVER_ensures(b->offset == 0 && b->used == EP_WINDOW_O(b))
 __CPROVER_ensures(EP_AUX_CELL_SAME(b, 0, EP_WINDOW_O(b)))
 ;
 
+/* ------------------------------------------------------------------------ */
+/* src/endpoints/buffer.c: the drivers of buffer endpoints, against the      */
+/* byte-buffer contracts of contracts/byte-buffer.h (C18).  They are chunk    */
+/* drivers of the kind the stubs model: a count 1..n of the next unread       */
+/* octets, in order, or -ENODATA / -ENOMEM, nothing moved.                    */
+#ifdef EP_UNIT_BUFFER
+
+#define EP_BB(driver) ((ByteBuffer *)(driver))
+#define EP_BB_REST_O(b) (__CPROVER_old((b)->used) - __CPROVER_old((b)->offset))
+
+/* source driver of a ByteBuffer: the oldest unread octets, at most n */
+static ssize_t read_from_buffer(void *driver, void *data, size_t n)
+__CPROVER_requires(BB_MEM_OK(EP_BB(driver)) && EP_BB(driver)->size <= (size_t)SSIZE_MAX)
+__CPROVER_requires(IMPLIES(EP_BB(driver)->used - EP_BB(driver)->offset > 0,
+    __CPROVER_w_ok(data, BB_MIN(n, EP_BB(driver)->used - EP_BB(driver)->offset))
+    && !__CPROVER_same_object(EP_BB(driver)->data, data)))
+__CPROVER_requires(!__CPROVER_same_object(driver, data))
+__CPROVER_assigns(EP_BB(driver)->offset;
+    n <= EP_BB(driver)->used - EP_BB(driver)->offset: __CPROVER_object_upto(data, n);
+    n > EP_BB(driver)->used - EP_BB(driver)->offset && EP_BB(driver)->used > EP_BB(driver)->offset:
+        __CPROVER_object_upto(data, EP_BB(driver)->used - EP_BB(driver)->offset))
+__CPROVER_ensures(EP_BB(driver)->data == __CPROVER_old(EP_BB(driver)->data)
+    && EP_BB(driver)->size == __CPROVER_old(EP_BB(driver)->size)
+    && EP_BB(driver)->used == __CPROVER_old(EP_BB(driver)->used) && BB_WF(EP_BB(driver))
+    && BB_CELL_SAME(EP_BB(driver), g_j))
+__CPROVER_ensures(IMPLIES(EP_BB_REST_O(EP_BB(driver)) == 0,
+    __CPROVER_return_value == -ENODATA && EP_BB(driver)->offset == __CPROVER_old(EP_BB(driver)->offset)))
+__CPROVER_ensures(IMPLIES(EP_BB_REST_O(EP_BB(driver)) != 0,
+    __CPROVER_return_value >= 0
+    && (size_t)__CPROVER_return_value == BB_MIN(n, EP_BB_REST_O(EP_BB(driver)))
+    && EP_BB(driver)->offset == __CPROVER_old(EP_BB(driver)->offset) + (size_t)__CPROVER_return_value))
+__CPROVER_ensures(IMPLIES(EP_BB_REST_O(EP_BB(driver)) != 0 && g_k < BB_MIN(n, EP_BB_REST_O(EP_BB(driver))),
+    ((unsigned char *)data)[g_k]
+      == EP_BB(driver)->data[BB_CL(__CPROVER_old(EP_BB(driver)->offset) + g_k, EP_BB(driver)->size)]))
+;
+
+/* sink driver of a ByteBuffer: all n octets are appended, or none (-ENOMEM) */
+static ssize_t write_to_buffer(void *driver, const void *data, size_t n)
+__CPROVER_requires(BB_MEM_OK(EP_BB(driver)) && EP_BB(driver)->size <= (size_t)SSIZE_MAX)
+__CPROVER_requires(IMPLIES(n <= EP_BB(driver)->size - EP_BB(driver)->used,
+    __CPROVER_r_ok(data, n) && !__CPROVER_same_object(EP_BB(driver)->data, data)))
+__CPROVER_requires(!__CPROVER_same_object(driver, data))
+__CPROVER_assigns(EP_BB(driver)->used;
+    n <= EP_BB(driver)->size - EP_BB(driver)->used: __CPROVER_object_upto(EP_BB(driver)->data, EP_BB(driver)->size))
+__CPROVER_ensures(EP_BB(driver)->data == __CPROVER_old(EP_BB(driver)->data)
+    && EP_BB(driver)->size == __CPROVER_old(EP_BB(driver)->size)
+    && EP_BB(driver)->offset == __CPROVER_old(EP_BB(driver)->offset) && BB_WF(EP_BB(driver)))
+__CPROVER_ensures(IMPLIES(n <= __CPROVER_old(EP_BB(driver)->size) - __CPROVER_old(EP_BB(driver)->used),
+    __CPROVER_return_value >= 0 && (size_t)__CPROVER_return_value == n
+    && EP_BB(driver)->used == __CPROVER_old(EP_BB(driver)->used) + n))
+__CPROVER_ensures(IMPLIES(n <= __CPROVER_old(EP_BB(driver)->size) - __CPROVER_old(EP_BB(driver)->used) && g_k < n,
+    EP_BB(driver)->data[BB_CL(__CPROVER_old(EP_BB(driver)->used) + g_k, EP_BB(driver)->size)]
+      == ((const unsigned char *)data)[g_k]))
+__CPROVER_ensures(IMPLIES(n <= __CPROVER_old(EP_BB(driver)->size) - __CPROVER_old(EP_BB(driver)->used)
+    && g_j < __CPROVER_old(EP_BB(driver)->used), BB_CELL_SAME(EP_BB(driver), g_j)))
+__CPROVER_ensures(IMPLIES(n > __CPROVER_old(EP_BB(driver)->size) - __CPROVER_old(EP_BB(driver)->used),
+    __CPROVER_return_value == -ENOMEM && EP_BB(driver)->used == __CPROVER_old(EP_BB(driver)->used)
+    && BB_CELL_SAME(EP_BB(driver), g_j)))
+;
+
+/* source driver of a chunk list (tier B: at most EP_CHUNKS_MAX chunks, the
+ * goto loop is unwound).  Chunks without unread octets are skipped; the octets
+ * come from the first chunk that has some (index `active` afterwards), at most
+ * n and only from that chunk; -ENODATA when every chunk from `active` on is
+ * empty.  The ghost index g_j stands for an arbitrary chunk. */
+#ifndef EP_CHUNKS_MAX
+#define EP_CHUNKS_MAX 4
+#endif
+#if EP_CHUNKS_MAX > 4
+#error "the per-chunk precondition of read_from_chunks is written out for at most 4 chunks"
+#endif
+#define EP_BC(driver) ((ByteChunks *)(driver))
+#define EP_CH(driver, i) (EP_BC(driver)->chunk + EP_CL((i), EP_BC(driver)->chunks))
+#define EP_CH_OK(driver, data, i) IMPLIES((i) < EP_BC(driver)->chunks, \
+    BB_MEM_OK(EP_CH(driver, i)) && EP_CH(driver, i)->size <= (size_t)SSIZE_MAX \
+    && !__CPROVER_same_object(EP_CH(driver, i)->data, (data)) \
+    && !__CPROVER_same_object(EP_CH(driver, i)->data, (driver)) \
+    && !__CPROVER_same_object(EP_CH(driver, i)->data, EP_BC(driver)->chunk))
+#define EP_CH_EMPTY_O(driver, i) \
+    (__CPROVER_old(EP_CH(driver, i)->used) == __CPROVER_old(EP_CH(driver, i)->offset))
+#define EP_CH_REST_O(driver, i) \
+    (__CPROVER_old(EP_CH(driver, i)->used) - __CPROVER_old(EP_CH(driver, i)->offset))
+#define EP_CH_SAME(driver, i) (EP_CH(driver, i)->data == __CPROVER_old(EP_CH(driver, i)->data) \
+    && EP_CH(driver, i)->size == __CPROVER_old(EP_CH(driver, i)->size) \
+    && EP_CH(driver, i)->used == __CPROVER_old(EP_CH(driver, i)->used))
+
+static ssize_t read_from_chunks(void *driver, void *data, size_t n)
+__CPROVER_requires(__CPROVER_rw_ok(EP_BC(driver), sizeof(ByteChunks)))
+__CPROVER_requires(EP_BC(driver)->chunks >= 1 && EP_BC(driver)->chunks <= EP_CHUNKS_MAX
+    && EP_BC(driver)->active <= EP_BC(driver)->chunks)
+__CPROVER_requires(__CPROVER_rw_ok(EP_BC(driver)->chunk, EP_BC(driver)->chunks * sizeof(ByteBuffer))
+    && !__CPROVER_same_object(EP_BC(driver)->chunk, driver)
+    && !__CPROVER_same_object(EP_BC(driver)->chunk, data))
+__CPROVER_requires(EP_CH_OK(driver, data, 0) && EP_CH_OK(driver, data, 1)
+    && EP_CH_OK(driver, data, 2) && EP_CH_OK(driver, data, 3))
+__CPROVER_requires(n >= 1 && n <= (size_t)SSIZE_MAX && __CPROVER_w_ok(data, n) && !__CPROVER_same_object(driver, data))
+__CPROVER_assigns(EP_BC(driver)->active; __CPROVER_object_upto(data, n);
+    __CPROVER_object_upto(EP_BC(driver)->chunk, EP_BC(driver)->chunks * sizeof(ByteBuffer)))
+__CPROVER_ensures(EP_BC(driver)->chunks == __CPROVER_old(EP_BC(driver)->chunks)
+    && EP_BC(driver)->chunk == __CPROVER_old(EP_BC(driver)->chunk)
+    && EP_BC(driver)->active >= __CPROVER_old(EP_BC(driver)->active)
+    && EP_BC(driver)->active <= EP_BC(driver)->chunks)
+/* every chunk keeps its storage and its content; only the offset of the chunk
+ * that was read from moves */
+__CPROVER_ensures(IMPLIES(g_j < EP_BC(driver)->chunks, EP_CH_SAME(driver, g_j)
+    && IMPLIES(!(__CPROVER_return_value >= 0 && g_j == EP_BC(driver)->active),
+         EP_CH(driver, g_j)->offset == __CPROVER_old(EP_CH(driver, g_j)->offset))))
+/* the chunks that were skipped had no unread octets: nothing is lost */
+__CPROVER_ensures(IMPLIES(g_j >= __CPROVER_old(EP_BC(driver)->active) && g_j < EP_BC(driver)->active,
+    EP_CH_EMPTY_O(driver, g_j)))
+__CPROVER_ensures(IMPLIES(__CPROVER_return_value < 0,
+    __CPROVER_return_value == -ENODATA && EP_BC(driver)->active == EP_BC(driver)->chunks))
+__CPROVER_ensures(IMPLIES(__CPROVER_return_value >= 0, EP_BC(driver)->active < EP_BC(driver)->chunks))
+__CPROVER_ensures(IMPLIES(__CPROVER_return_value >= 0 && g_j == EP_BC(driver)->active,
+    !EP_CH_EMPTY_O(driver, g_j)
+    && (size_t)__CPROVER_return_value == BB_MIN(n, EP_CH_REST_O(driver, g_j))
+    && EP_CH(driver, g_j)->offset == __CPROVER_old(EP_CH(driver, g_j)->offset) + (size_t)__CPROVER_return_value
+    && IMPLIES(g_k < (size_t)__CPROVER_return_value,
+         ((unsigned char *)data)[g_k]
+           == EP_CH(driver, g_j)->data[BB_CL(__CPROVER_old(EP_CH(driver, g_j)->offset) + g_k, EP_CH(driver, g_j)->size)])))
+;
+
+void source_from_buffer(Source *instance, ByteBuffer *buffer)
+__CPROVER_requires(__CPROVER_rw_ok(instance, sizeof(Source)))
+__CPROVER_assigns(instance->kind, instance->source, instance->driver, instance->ext.getbuffer)
+__CPROVER_ensures(instance->kind == DATA_KIND_CHUNK && instance->source.chunk == read_from_buffer
+    && instance->driver == (void *)buffer && instance->ext.getbuffer == NULL)
+;
+
+void source_from_chunks(Source *instance, ByteChunks *chunks)
+__CPROVER_requires(__CPROVER_rw_ok(instance, sizeof(Source)))
+__CPROVER_assigns(instance->kind, instance->source, instance->driver, instance->ext.getbuffer)
+__CPROVER_ensures(instance->kind == DATA_KIND_CHUNK && instance->source.chunk == read_from_chunks
+    && instance->driver == (void *)chunks && instance->ext.getbuffer == NULL)
+;
+
+void sink_to_buffer(Sink *instance, ByteBuffer *buffer)
+__CPROVER_requires(__CPROVER_rw_ok(instance, sizeof(Sink)))
+__CPROVER_assigns(instance->kind, instance->sink, instance->driver, instance->ext.getbuffer)
+__CPROVER_ensures(instance->kind == DATA_KIND_CHUNK && instance->sink.chunk == write_to_buffer
+    && instance->driver == (void *)buffer && instance->ext.getbuffer == NULL)
+;
+#endif /* EP_UNIT_BUFFER */
+
+/* ------------------------------------------------------------------------ */
+/* src/endpoints/trivial.c                                                   */
+#ifdef EP_UNIT_TRIVIAL
+
+static ssize_t run_source_zero(void *driver, void *data, size_t n)
+__CPROVER_requires(n <= (size_t)SSIZE_MAX && IMPLIES(n > 0, __CPROVER_w_ok(data, n)))
+__CPROVER_assigns(n > 0: __CPROVER_object_upto(data, n))
+__CPROVER_ensures(__CPROVER_return_value >= 0 && (size_t)__CPROVER_return_value == n)
+__CPROVER_ensures(IMPLIES(g_k < n, ((unsigned char *)data)[g_k] == 0))
+;
+
+static ssize_t run_sink_null(void *driver, const void *data, size_t n)
+__CPROVER_requires(n <= (size_t)SSIZE_MAX)
+__CPROVER_assigns()
+__CPROVER_ensures(__CPROVER_return_value >= 0 && (size_t)__CPROVER_return_value == n)
+;
+
+static ssize_t run_source_empty(void *driver, void *data, size_t n)
+__CPROVER_assigns()
+__CPROVER_ensures(__CPROVER_return_value == -ENODATA)
+;
+
+/* static-state invariant of the three predefined endpoints (mutable objects of
+ * static lifetime: nondeterministic under dfcc, so every user states it; the
+ * base target proves it of the initialisers) */
+#define EP_STATIC_OK() \
+  (source_empty.kind == DATA_KIND_CHUNK && source_empty.source.chunk == run_source_empty \
+   && source_empty.driver == NULL && source_empty.ext.getbuffer == NULL \
+   && source_zero.kind == DATA_KIND_CHUNK && source_zero.source.chunk == run_source_zero \
+   && source_zero.driver == NULL && source_zero.ext.getbuffer == NULL \
+   && sink_null.kind == DATA_KIND_CHUNK && sink_null.sink.chunk == run_sink_null \
+   && sink_null.driver == NULL && sink_null.ext.getbuffer == NULL)
+#endif /* EP_UNIT_TRIVIAL */
+
 #endif
